@@ -31,7 +31,7 @@ def one(sid):
         return sid, caught, meta["property"] in caught
     finally:
         shutil.rmtree(d, ignore_errors=True)
-with ThreadPoolExecutor(max_workers=6) as ex:
+with ThreadPoolExecutor(max_workers=14) as ex:
     res = list(ex.map(one, ids))
 own = sum(1 for r in res if r[2] is True)
 anyc = sum(1 for r in res if r[1])
